@@ -551,6 +551,14 @@ class Ehdr(StructFormatter):
             self.unpack(data)
 
     def unpack(self, data, offset=0, psize=0):
+        try:
+            return self._unpack(data, offset, psize)
+        except StructureError:
+            raise
+        except Exception:
+            raise StructureError("Ehdr")
+
+    def _unpack(self, data, offset=0, psize=0):
         f0 = self.fields[0]
         self._v.e_ident = f0.unpack(data, offset)
         offset += f0.size()
